@@ -464,6 +464,181 @@ def rule_parser_plain(ctx, rep, rule_id="R-PARSER-PLAIN"):
         raise AnalysisError("no ArgumentParser construction found under codemodder.*")
 
 
+def _optional_valued_attrs(ctx, cls) -> dict[str, str]:
+    """attributes of a class annotated as containers whose *values / elements* may be None: dict[K, V | None], list[V | None], ..."""
+    out = {}
+    anns = dict(cls.ann)
+    init = cls.methods.get("__init__")
+    if init is not None:
+        for a in walk_no_nested(init.node):
+            if isinstance(a, ast.AnnAssign) and isinstance(a.target, ast.Attribute) and isinstance(a.target.value, ast.Name) and a.target.value.id == "self":
+                anns[a.target.attr] = a.annotation
+    for name, ann in anns.items():
+        t = unparse(ann)
+        if not t.startswith(("dict[", "Dict[", "list[", "List[", "typing.Dict[", "typing.List[", "defaultdict[")):
+            continue
+        inner = ann.slice if isinstance(ann, ast.Subscript) else None
+        val = inner.elts[-1] if isinstance(inner, ast.Tuple) else inner
+        if val is None:
+            continue
+        vt = unparse(val)
+        if "| None" in vt or "None |" in vt or vt.startswith(("Optional[", "typing.Optional[")):
+            out[name] = vt
+    return out
+
+
+def rule_optional_element_deref(ctx, rep, rule_id="R-OPTIONAL-ELEMENT-DEREF"):
+    rep.rule(
+        rule_id,
+        "where a class keeps a container whose values are declared `X | None` (the execution context's record of which manifest a codemod's "
+        "dependencies went to: None = no manifest could be written), every attribute access on a value taken out of it is dominated by a "
+        "truthiness / `is not None` test of that value: the None case is exactly the documented `no manifest can be updated` situation, and an "
+        "AttributeError there ends a run, whose report may already be written, with a traceback and status 1",
+        min_instances=1,
+    )
+    n = 0
+    for cls in [c for c in ctx.prog.classes.values() if c.module.name.startswith("codemodder.")]:
+        opt = _optional_valued_attrs(ctx, cls)
+        if not opt:
+            continue
+        for m in cls.methods.values():
+            if m.absorbed:
+                continue
+            fa = None
+            # element variables: `for k, v in self.A.items()`, `for v in self.A.values()`, `v = self.A.get(k)` / `self.A[k]`, walrus forms
+            elems: list[tuple[str, ast.AST, list]] = []  # (variable, scope node, comprehension ifs or None)
+            for x in ast.walk(m.node):
+                gens = []
+                if isinstance(x, ast.For):
+                    gens = [(x.target, x.iter, x, None)]
+                elif isinstance(x, (ast.ListComp, ast.SetComp, ast.GeneratorExp, ast.DictComp)):
+                    gens = [(g.target, g.iter, x, g.ifs) for g in x.generators]
+                for tgt, it, scope, ifs in gens:
+                    if isinstance(it, ast.Call) and isinstance(it.func, ast.Attribute) and it.func.attr in ("items", "values") and _is_self_attr(it.func.value, opt):
+                        v = None
+                        if it.func.attr == "items" and isinstance(tgt, ast.Tuple) and len(tgt.elts) == 2 and isinstance(tgt.elts[1], ast.Name):
+                            v = tgt.elts[1].id
+                        elif it.func.attr == "values" and isinstance(tgt, ast.Name):
+                            v = tgt.id
+                        if v:
+                            elems.append((v, scope, ifs))
+                if isinstance(x, (ast.Assign, ast.NamedExpr)):
+                    tgt = x.targets[0] if isinstance(x, ast.Assign) else x.target
+                    val = x.value
+                    if isinstance(tgt, ast.Name) and ((isinstance(val, ast.Call) and isinstance(val.func, ast.Attribute) and val.func.attr == "get" and _is_self_attr(val.func.value, opt) and len(val.args) == 1)
+                                                     or (isinstance(val, ast.Subscript) and _is_self_attr(val.value, opt))):
+                        elems.append((tgt.id, m.node, None))
+            for v, scope, ifs in elems:
+                derefs = [a for a in ast.walk(scope) if isinstance(a, ast.Attribute) and isinstance(a.value, ast.Name) and a.value.id == v and isinstance(a.ctx, ast.Load)]
+                for d in derefs:
+                    n += 1
+                    if ifs is not None:
+                        guarded = any(_tests_not_none(t, v) for t in ifs)
+                    else:
+                        fa = fa or ctx.flow(m)
+                        must = fa.must_at(d) if fa.state_at(d) is not None else frozenset()
+                        guarded = any((pol and txt == v) or ((not pol) and txt == f"{v} is None") for pol, txt in must)
+                        if not guarded:
+                            # the statement holding the dereference
+                            st = _enclosing_stmt(ctx, m, d)
+                            must = fa.must_at(st) if st is not None and fa.state_at(st) is not None else frozenset()
+                            guarded = any((pol and txt == v) or ((not pol) and txt == f"{v} is None") for pol, txt in must)
+                            # `a and a.x` / `a.x if a else ...` inside one expression
+                            guarded = guarded or _guarded_in_expr(ctx, m, d, v)
+                    rep.check(rule_id, m.qname, m.loc(d), guarded, f"{v}.{d.attr}",
+                              f"`{unparse(d)}`: `{v}` comes out of a container declared to hold `{list(opt.values())[0]}` and is dereferenced without a None test")
+    if n == 0:
+        raise AnalysisError("no dereference of an Optional-valued container element found (the context's dependency-update record was expected)")
+
+
+def _is_self_attr(e, names) -> bool:
+    return isinstance(e, ast.Attribute) and isinstance(e.value, ast.Name) and e.value.id == "self" and e.attr in names
+
+
+def _tests_not_none(t: ast.expr, v: str) -> bool:
+    if isinstance(t, ast.Name) and t.id == v:
+        return True
+    if isinstance(t, ast.Compare) and isinstance(t.left, ast.Name) and t.left.id == v and len(t.ops) == 1 and isinstance(t.ops[0], ast.IsNot) \
+            and isinstance(t.comparators[0], ast.Constant) and t.comparators[0].value is None:
+        return True
+    if isinstance(t, ast.BoolOp) and isinstance(t.op, ast.And):
+        return any(_tests_not_none(x, v) for x in t.values)
+    return False
+
+
+def _enclosing_stmt(ctx, fn, node):
+    pm = ctx.parents(fn)
+    cur = node
+    while cur is not None and not isinstance(cur, ast.stmt):
+        cur = pm.get(id(cur))
+    return cur
+
+
+def _guarded_in_expr(ctx, fn, d, v) -> bool:
+    pm = ctx.parents(fn)
+    cur, child = pm.get(id(d)), d
+    while cur is not None and not isinstance(cur, ast.stmt):
+        if isinstance(cur, ast.BoolOp) and isinstance(cur.op, ast.And):
+            idx = next((i for i, x in enumerate(cur.values) if x is child), 0)
+            if any(_tests_not_none(x, v) for x in cur.values[:idx]):
+                return True
+        if isinstance(cur, ast.IfExp) and cur.body is child and _tests_not_none(cur.test, v):
+            return True
+        child, cur = cur, pm.get(id(cur))
+    return False
+
+
+def rule_output_path_owner(ctx, rep):
+    rep.rule(
+        "R-OUTPUT-PATH-OWNER",
+        "the --output path is acted upon in one place only, CodeTF.write_report, whose handler turns every failure into status 2: in run() and "
+        "whatever it calls the option's value is only tested, logged and handed to write_report -- any other file-system use of it (unlink of a "
+        "stale report, mkdir of its parent, an existence test that raises) fails with a traceback (status 1) or an undocumented status for the very "
+        "situations the documented status 2 stands for",
+        min_instances=2,
+    )
+    n = 0
+    for run in [f for f in ctx.prog.live_functions() if f.module.name == "codemodder.codemodder"]:
+        n += _output_uses(ctx, rep, run)
+    if n < 2:
+        raise AnalysisError("codemodder.codemodder: the uses of argv.output (log line, write_report) were not found")
+
+
+def _output_uses(ctx, rep, run) -> int:
+    r = ctx.resolver(run)
+    # names carrying the option value inside run()
+    tainted_txt = {"argv.output"}
+    carriers = set()
+    changed = True
+    while changed:
+        changed = False
+        for a in walk_no_nested(run.node):
+            if isinstance(a, ast.Assign) and len(a.targets) == 1 and isinstance(a.targets[0], ast.Name) and a.targets[0].id not in carriers:
+                if any(t in unparse(a.value) for t in tainted_txt) or names_in(a.value) & carriers:
+                    carriers.add(a.targets[0].id)
+                    changed = True
+    def carries(e):
+        return any(t in unparse(e) for t in tainted_txt) or bool(names_in(e) & carriers)
+
+    n = 0
+    for c in walk_no_nested(run.node):
+        if not isinstance(c, ast.Call):
+            continue
+        args = list(c.args) + [k.value for k in c.keywords]
+        recv = c.func.value if isinstance(c.func, ast.Attribute) else None
+        if not (any(carries(a) for a in args) or (recv is not None and carries(recv))):
+            continue
+        n += 1
+        q = r.callee_qname(c) or ""
+        la = last_attr(c.func) or ""
+        is_report = any(isinstance(t, FuncInfo) and t.qname == WRITE_REPORT for t in r.resolve_call(c)) or la == "write_report"
+        is_log = unparse(c.func).startswith(("logger.", "logging.")) or la in ("log_section", "log_list")
+        pure = q in ("pathlib.Path", "str", "os.fspath", "bool") or (isinstance(c.func, ast.Name) and c.func.id in ("Path", "str", "bool"))
+        rep.check("R-OUTPUT-PATH-OWNER", run.qname, run.loc(c), is_report or is_log or pure, f"use:{unparse(c.func)[:30]}",
+                  f"`{unparse(c)[:70]}` acts on the --output path outside CodeTF.write_report: its failure is not answered with status 2")
+    return n
+
+
 def rule_report_try_minimal(ctx, rep):
     rep.rule(
         "R-REPORT-TRY-MINIMAL",
@@ -500,6 +675,8 @@ def check(ctx, rep):
     rule_zero_after_report(ctx, rep)
     rule_ai_config(ctx, rep)
     rule_report_try_minimal(ctx, rep)
+    rule_output_path_owner(ctx, rep)
+    rule_optional_element_deref(ctx, rep)
     rule_arg_converters(ctx, rep)
     rule_parser_plain(ctx, rep)
     from .c12 import rule_every_input_read
